@@ -404,6 +404,40 @@ func buildPE(s peShape) []byte {
 	return b
 }
 
+// attachCertTable appends an attribute certificate table holding one
+// WIN_CERTIFICATE (PKCS#7 blob given) to a generated image, the way a signing
+// tool leaves it: zero padding to a multiple of 8, entry, padding; data
+// directory entry 4 set.
+func attachCertTable(img []byte, s peShape, pkcs7 []byte) []byte {
+	le := binary.LittleEndian
+	out := append([]byte{}, img...)
+	for len(out)%8 != 0 {
+		out = append(out, 0)
+	}
+	addr := len(out)
+	ent := make([]byte, 8)
+	le.PutUint32(ent[0:], uint32(8+len(pkcs7)))
+	le.PutUint16(ent[4:], 0x0200)
+	le.PutUint16(ent[6:], 2)
+	out = append(out, ent...)
+	out = append(out, pkcs7...)
+	for len(out)%8 != 0 {
+		out = append(out, 0)
+	}
+	opt := s.Lfanew + 24
+	dd := opt + 128
+	if s.Plus {
+		dd = opt + 144
+	}
+	le.PutUint32(out[dd:], uint32(addr))
+	le.PutUint32(out[dd+4:], uint32(len(out)-addr))
+	if s.Linker {
+		le.PutUint32(out[opt+64:], 0)
+		le.PutUint32(out[opt+64:], peChecksumOf(out, opt+64))
+	}
+	return out
+}
+
 var peRawSizes = []int{512, 4096, 4608}
 var peOverlays = []int{0, 1, 7, 8, 9}
 
@@ -644,6 +678,8 @@ func psFamily() []psShape {
 	nonASCII := []tv{
 		{"non-ascii-crlf", "Write-Host 'héllo € 😀'\r\n"},
 		{"non-ascii-nofinal", "# ünïcödé"},
+		// U+0A95 / U+010A: UTF-16LE code units with a 0x0A byte that is not a line feed
+		{"utf16-unit-with-0x0a-byte", "# ક Ċ x\r\n$y = 2\r\n"},
 	}
 	var out []psShape
 	for _, ext := range []string{".ps1", ".ps1xml", ".mof"} {
